@@ -405,7 +405,7 @@ Proof.
     + (* a restart after an overflow cannot end with ok = true: the flag only goes up *)
       exfalso. clear IH Hp.
       assert (Hmono : forall fuel tol bs ok, lb_loop O P items width looseness fuel tol true = Done bs ok -> ok = false).
-      { induction fuel0 as [|f0 IH0]; intros tol0 bs0 ok0 H0; [discriminate|]. cbn [lb_loop] in H0.
+      { intros fuelx. induction fuelx as [|f0 IH0]; intros tol0 bs0 ok0 H0; [discriminate|]. cbn [lb_loop] in H0.
         pose proof (pass_all O P items width tol0 leb_dfit items 0 [root O] [] None true eq_refl eq_refl) as Hp0.
         change (pref O items 0) with (t0 O) in Hp0.
         destruct (pass O P items width tol0 items 0 (t0 O) [root O] [] None true) as [|t1 o1|act1 o1]; [discriminate| |].
